@@ -66,7 +66,7 @@ def pin_rules(prog, chk, prefix=""):
     ok = len(pin) == 1 and unparse(pin[0].ast.value) == "username"
     if ok:
         ok = g is not None and g2 is not None and fl.dominated(pin, guard_edge=g) and fl.dominated(pin, guard_edge=g2)
-        ok = ok and fl.dominated(callbacks + replies, guard_nodes=pin)
+        ok = ok and fl.dominated(callbacks + replies, guard_nodes=pin, complete=True)
     chk.ob(prefix + "R3.pin-before-callbacks", "_parse_userauth_request", ok, ar.loc,
            "auth_username = username after both tests and before every callback/reply (a probe pins the name)")
     writers = []
